@@ -1,0 +1,87 @@
+//go:build verif
+
+package server
+
+import (
+	"go.lsp.dev/protocol"
+)
+
+// Exports for the verification harness (property C16).  Add-only; compiled only with
+// `-tags verif`.
+
+// VerifScored is the exported view of a scoredItem.
+type VerifScored struct {
+	Label string
+	Score int
+}
+
+func verifItems(labels []string) []protocol.CompletionItem {
+	items := make([]protocol.CompletionItem, len(labels))
+	for i, l := range labels {
+		items[i] = protocol.CompletionItem{Label: l}
+	}
+	return items
+}
+
+func verifScored(in []scoredItem) []VerifScored {
+	out := make([]VerifScored, len(in))
+	for i, s := range in {
+		out[i] = VerifScored{Label: s.item.Label, Score: s.score}
+	}
+	return out
+}
+
+func VerifFuzzyMatchScore(text, pattern string) int { return fuzzyMatchScore(text, pattern) }
+
+func VerifFuzzyMatchScoreBySegments(name, pattern string) int {
+	return fuzzyMatchScoreBySegments(name, pattern)
+}
+
+func VerifFilterByPrefix(labels []string, query string) []VerifScored {
+	return verifScored(filterByPrefix(verifItems(labels), query))
+}
+
+func VerifFilterAndScore(labels []string, query string, fuzzy bool) []VerifScored {
+	return verifScored(filterAndScoreFuzzyMatch(verifItems(labels), query, fuzzy))
+}
+
+// VerifRank runs rankCompletionItemsByScore and returns the labels in ranked order.
+func VerifRank(in []VerifScored, counts map[string]int, query string) []string {
+	scored := make([]scoredItem, len(in))
+	for i, s := range in {
+		scored[i] = scoredItem{item: protocol.CompletionItem{Label: s.Label}, score: s.Score}
+	}
+	items := rankCompletionItemsByScore(scored, counts, query)
+	out := make([]string, len(items))
+	for i, it := range items {
+		out[i] = it.Label
+	}
+	return out
+}
+
+func VerifDetermineCompletionContext(content string, pos protocol.Position, ctx *protocol.CompletionContext) int {
+	return int(determineCompletionContext(content, pos, ctx))
+}
+
+func VerifCalculateTextEditRange(content string, pos protocol.Position, ctxType int) *protocol.Range {
+	return calculateTextEditRange(content, pos, CompletionContextType(ctxType))
+}
+
+func VerifExtractQueryText(content string, pos protocol.Position, ctxType int) string {
+	return extractQueryText(content, pos, CompletionContextType(ctxType))
+}
+
+func VerifExtractAccountPrefix(content string, pos protocol.Position) string {
+	return extractAccountPrefix(content, pos)
+}
+
+func VerifFindAmountEnd(s string) int { return findAmountEnd(s) }
+
+func VerifFindDoublespace(s string) int { return findDoublespace(s) }
+
+// VerifNormalizeMaxResults is normalizeServerSettings restricted to completion.maxResults.
+func VerifNormalizeMaxResults(n int) int {
+	s := defaultServerSettings()
+	s.Completion.MaxResults = n
+	return normalizeServerSettings(s).Completion.MaxResults
+}
